@@ -1,5 +1,6 @@
 from __future__ import unicode_literals
 
+import threading
 import zlib
 
 from six import PY2
@@ -17,6 +18,8 @@ class Deflate(object):
         self.compress_wbits = compress_wbits
         self.reset_decompress = reset_decompress
         self.reset_compress = reset_compress
+        # Held while a message is compressed *and* sent, see WebSocket
+        self.lock = threading.Lock()
         self.reset_decompressor()
         self.reset_compressor()
 
